@@ -216,6 +216,32 @@ def run(rep: Report) -> None:
     except Raised as e:
         rep.refuted("reader-writer", "lookups after construction", rel, f"raises {e.exc}: {e.msg}", key="rw|raise")
 
+    # the lookups keep reading back what is written when construction goes on after they were
+    # read (memoising lookups, as in CPython, through the real invalidating decorator)
+    from ..histories import LOOKUPS, HistWorld, read_all
+
+    hw = HistWorld(prog)
+    hit = hw.interp()
+    h1, h2, h3 = hw.node("n1"), hw.node("n2"), hw.node("n3")
+    hl1, hl2 = hw.link("l1"), hw.link("l2")
+    ho1, ho2 = hw.origin("o1", "MeteredOnRamp"), hw.origin("o2", "MainstreamOrigin")
+    hd1, hd2 = hw.dest("d1"), hw.dest("d2", "CongestedDestination")
+    steps = [("add_link", [h1, hl1, h2]), ("add_origin", [ho1, h1]), ("add_destination", [hd1, h2]),
+             ("add_link", [h2, hl2, h3]), ("add_origin", [ho2, h2]), ("add_destination", [hd2, h3]),
+             ("add_destination", [hd1, h3]), ("add_node", [hw.node("n4")])]
+    try:
+        for meth, a in steps:
+            read_all(hw, hit, cached=True)  # every lookup is read before the next call
+            mfi = prog.function("sym_metanet.network", f"Network.{meth}")
+            hit.call(FuncV(mfi, hw.net, defcls=mfi.cls), list(a), {}, None, None)
+            got, want = read_all(hw, hit, cached=True), read_all(hw, hit, cached=False)
+            bad = [k for k in want if got.get(k) != want[k]]
+            rep.check(not bad, "reader-writer", f"lookups read before and after {meth}({', '.join(x.ident for x in a)})",
+                      f"{rel} Network.{meth}", f"after the call the lookups {bad} still show what was read before it",
+                      key=f"rw|stale|{meth}")
+    except Raised as e:
+        rep.refuted("reader-writer", "lookups during construction", rel, f"raises {e.exc}: {e.msg}", key="rw|stale|raise")
+
     # the link views read back exactly the edges written (two-way road, self-loop)
     from ..histories import views_vs_graph
 
